@@ -63,7 +63,8 @@ BalloonNotPristine(S, S0) ==
 \* all C02 state predicates over a snapshot, as (predicate, witness) pairs
 BalloonState(S, ctrs, view, live, world) ==
     IF S = <<>> THEN {}
-    ELSE LET managed == {c \in DOMAIN ctrs : ctrs[c].st \in {"created", "running"}}
+    ELSE LET \* containers opted out with cpu.preserve are not handled by the policy at all and legitimately hold nothing
+             managed == {c \in DOMAIN ctrs : ctrs[c].st \in {"created", "running"} /\ ~ctrs[c].pcpu /\ c \in live}
              pinned  == {c \in managed \cap BalloonMembers(S) : world.pincpu /\ ~ctrs[c].pcpu}
              T       == [c \in pinned |-> ctrs[c].res.cpus]
          IN {<<"Inv_BalloonsDisjoint", w>> : w \in Bad_BalloonsDisjoint(S)}
